@@ -367,6 +367,19 @@ def bytes_layout(F, fn, t, depth=0):
             return bytes_layout(F, fn, s[2][0], depth + 1)
         if n.endswith('str>::bytes') and s[2]:
             return [(field_path(s[2][0]), 'str', 'raw')]
+        # `out.extend(opt.map(|m| m as u8))`: zero or one byte, the (fieldless enum / u8) payload of the Option
+        if n.endswith('Option::<T>::map') and len(s[2]) == 2 and strip(s[2][1])[0] == 'closure':
+            g = F.fn(strip(s[2][1])[1])
+            if g is not None:
+                rs = [strip(t) for b0, k0, t in paths.ret_assigns(g)]
+                if len(rs) == 1:
+                    r0 = rs[0]
+                    while r0[0] == 'cast':
+                        r0 = strip(r0[2])
+                    if r0[0] == 'discr':
+                        r0 = strip(r0[1])
+                    if r0[0] == 'arg' and r0[1] == 2:
+                        return [(field_path(s[2][0]), 1, '-opt')]
         if n.endswith('ops::Index::index') and len(s[2]) == 2 and strip(s[2][1])[0] == 'agg' and strip(s[2][1])[1].endswith('RangeFull'):
             return bytes_layout(F, fn, s[2][0], depth + 1)
         if n.endswith('box_assume_init_into_vec_unsafe') and isinstance(s[3], int):
@@ -1104,7 +1117,16 @@ def check_prefix_agrees(ctx, rule):
         return
     enc, unk = encoder_rows(F, f)
     key = [norm_row(r) for r in ref['key']]
-    variants = sorted({tuple(tuple(r) for r in rows) for rows in enc.values()}, key=len)
+    variants = set()
+    for rows in enc.values():
+        rows = [tuple(r) for r in rows]
+        if any(str(r[2]).endswith('opt') for r in rows):
+            # a trailing byte written from an `Option` (zero or one byte): both lengths occur
+            variants.add(tuple(r for r in rows if not str(r[2]).endswith('opt')))
+            variants.add(tuple((r[0], r[1], str(r[2])[:-3] or '-') if str(r[2]).endswith('opt') else r for r in rows))
+        else:
+            variants.add(tuple(rows))
+    variants = sorted(variants, key=len)
     want_short = (key[0],)
     want_long = (key[0], ('mode', key[1][1], key[1][2]))
     norm = []
